@@ -506,12 +506,20 @@ package stdlibspec
 //@   ensures result1 == nil ==> result0 != nil
 //@ extern context.Background
 //@   pure
-//@ extern context.WithTimeout
+// ctxDeadlineWithin(c, d): context c is cancelled at most d after it was made
+//@ spec func ctxDeadlineWithin(c context.Context, d time.Duration) bool
+//@ extern context.WithTimeout(parent, timeout)
 //@   pure
-//@   ensures result0 != nil
-//@ extern cmp.Or
+//@   requires timeout > 0                                  # name: positive-timeout
+//@   ensures result0 != nil && result1 != nil && ctxDeadlineWithin(result0, timeout)
+//@ extern cmp.Or(vals)
 //@   pure
+//@   ensures len(vals) == 2 ==> result == ite(vals[0] != zeroOf(vals[0]), vals[0], vals[1])
 //@ extern maps.Clone(m)
 //@   pure
 //@   ensures m == nil ==> result == nil
 //@   ensures m != nil ==> result != nil && fresh(result) && hasArr(result) == hasArr(m) && valArr(result) == valArr(m)
+
+// goroutinesSpawned: number of `go` statements executed by this thread of control (the
+// verifier increments it at every go statement; C20: exactly one background revalidation)
+//@ ghost var goroutinesSpawned int
